@@ -5,7 +5,9 @@ package c07
 import (
 	"encoding/binary"
 	enchex "encoding/hex"
+	"encoding/json"
 	"fmt"
+	"math"
 	"runtime"
 	"strconv"
 	"strings"
@@ -34,7 +36,7 @@ func init() {
 		ID: "C07",
 		Rule: "case = one seed encoding (valid WKB in either/mixed byte order, or a GeoJSON document) together with its mutation family: truncation at every offset, single-bit flips, every count field inflated to {n+1,2n,2^16,2^24,2^28,2^31,2^32-1}, unknown/EWKB type codes, bad byte-order flags, marker floating-point patterns (canonical NaNs, infinities, -0, MaxFloat64) written into one or both ordinates of a vertex, collections nested up to the 64 KiB limit, random byte strings, malformed hex, grammar-generated JSON with arbitrarily shaped coordinates members, wide documents of 255..2049 small members with one malformed position, hand-built Geometry values; every decoder call runs under recover() with heap-allocation accounting (runtime.ReadMemStats TotalAlloc deltas, single goroutine) in a child process with RLIMIT_AS=4GiB; " +
 			"an evaluation is one decoder call; non-trivial = mutated/hostile input (distinct by input hash) on which the decoder returned an error or a geometry that survived the re-encode fixpoint",
-		Assumptions: []string{"'memory bounded by a constant multiple of the input' is restated as ΔTotalAlloc <= K*len+C with K=64 (WKB, hex), 256 (GeoJSON), C=64KiB", "inputs up to 64 KiB", "hand-built Geometry values are only required not to panic"},
+		Assumptions: []string{"'memory bounded by a constant multiple of the input' is restated as ΔTotalAlloc <= K*len+C with K=64 (WKB, hex), 256 (GeoJSON), C=64KiB", "inputs up to 64 KiB", "hand-built Geometry values: no panic, well-formed result or error, and the re-encode clause whenever they are accepted"},
 		Phases: []core.Phase{{Name: "hostile", NumCases: func(t string) int {
 			if t == "thorough" {
 				return 60000
@@ -261,6 +263,28 @@ func (e *env) tryFromGeoJSON(family string, gj *geojson.Geometry) {
 	if err == nil {
 		if s := wellFormed(g); s != "" {
 			c.Violate("malformed-result:geojson.FromGeoJSON", "FromGeoJSON returned no error but "+s, det)
+		} else {
+			// the re-encode clause holds for Geometry values as for documents
+			det["decoded"] = gen.Dump(g)
+			rec := core.Try(func() {
+				txt, err := geojson.Encode(g)
+				if err != nil {
+					c.Violate("refix-error:geojson.FromGeoJSON", fmt.Sprintf("re-encoding a geometry that FromGeoJSON accepted failed: %v", err), det)
+					return
+				}
+				g2, err := geojson.Decode(txt)
+				if err != nil {
+					c.Violate("refix-error:geojson.FromGeoJSON", fmt.Sprintf("decoding the re-encoded geometry failed: %v", err), det)
+					return
+				}
+				if ok, why := gen.SameStructure(g, g2); !ok {
+					c.Violate("refix-differs:geojson.FromGeoJSON", "Decode(Encode(FromGeoJSON(v))) differs: "+why, det)
+				}
+			})
+			if rec != nil {
+				c.Violate("refix-panic:geojson.FromGeoJSON", fmt.Sprintf("re-encoding a geometry that FromGeoJSON accepted panicked: %v", rec), det)
+			}
+			c.Count("json.handbuilt.accepted")
 		}
 	}
 	h := core.NewHasher().Str(fmt.Sprintf("%#v", gj))
@@ -819,5 +843,55 @@ func (e *env) jsonFamily(r *gen.R) {
 		[]interface{}{[]interface{}{1.0, 2.0}, []interface{}{1.0}}, struct{}{}, geom.Point{X: 1, Y: 2}, []geom.Point{{X: 1, Y: 2}}}
 	for k := 0; k < 40; k++ {
 		e.tryFromGeoJSON("handbuilt", &geojson.Geometry{Type: typeNames[r.Intn(len(typeNames))], Coordinates: vals[r.Intn(len(vals))]})
+	}
+	// well-shaped trees of []interface{} as a JSON decoder would build them, but with numbers a
+	// document cannot hold (NaN, infinities, -0) or of other numeric types, and type strings in
+	// another case or with padding
+	num := func() interface{} {
+		switch r.Intn(12) {
+		case 0:
+			return math.NaN()
+		case 1:
+			return math.Inf(1)
+		case 2:
+			return math.Inf(-1)
+		case 3:
+			return math.Copysign(0, -1)
+		case 4:
+			return int(r.IntRange(-5, 5))
+		case 5:
+			return float32(r.Range(-5, 5))
+		case 6:
+			return json.Number("1.5")
+		}
+		return r.Range(-180, 180)
+	}
+	var tree func(depth int) interface{}
+	tree = func(depth int) interface{} {
+		if depth == 0 {
+			return []interface{}{num(), num()}
+		}
+		n := r.IntRange(1, 3)
+		o := make([]interface{}, n)
+		for i := range o {
+			o[i] = tree(depth - 1)
+		}
+		return o
+	}
+	depthOf := map[string]int{"Point": 0, "MultiPoint": 1, "LineString": 1, "MultiLineString": 2, "Polygon": 2, "MultiPolygon": 3}
+	for k := 0; k < 40; k++ {
+		ty := []string{"Point", "MultiPoint", "LineString", "MultiLineString", "Polygon", "MultiPolygon"}[r.Intn(6)]
+		name := ty
+		switch r.Intn(8) {
+		case 0:
+			name = strings.ToLower(ty)
+		case 1:
+			name = " " + ty
+		case 2:
+			name = ty + " "
+		case 3:
+			name = strings.ToUpper(ty)
+		}
+		e.tryFromGeoJSON("handbuilt", &geojson.Geometry{Type: name, Coordinates: tree(depthOf[ty])})
 	}
 }
